@@ -7,7 +7,7 @@ from pathlib import Path
 
 from lcmsa.alg import METHODS, _short, first_difference, hoist, lib_op, norm
 from lcmsa.core import AnalysisError, callee_name, is_term, walk
-from lcmsa.editdist import local_cost
+from lcmsa.editdist import local_cost, local_cost2
 from lcmsa.report import Ctx, rule
 
 REF = "lcmref.kernels"
@@ -326,8 +326,11 @@ def _soft_verdict(ctx, prog, key, where, what, pa, pr, ga, gr, nf, nf_plain=None
         ctx.count("restructured_not_compared")
         ctx.ob(key, True, where, f"{what}: written differently from the reviewed form ({structural + leftover} pieces restructured); "
                "no conclusion is drawn from the comparison -- the dataflow obligations decide", nontrivial=False)
+    elif all(x.startswith("~") for x in diffs):
+        ctx.count("restructured_not_compared")
+        ctx.ob(key, True, where, f"{what}: differs from the reviewed form only by type conversions; no conclusion is drawn", nontrivial=False)
     else:
-        uniq = list(dict.fromkeys(diffs))
+        uniq = list(dict.fromkeys(x.lstrip("~") for x in diffs))
         ctx.ob(key, False, where, f"{what}: same structure as the reviewed form but {len(uniq)} atomic deviation(s): " + "; ".join(uniq[:4]),
                lhs="; ".join(uniq[:8]), rhs="reviewed form")
 
@@ -591,10 +594,10 @@ def content(prog, t, depth=0, covered=None, every=False):
             info = prog.funcs[t[1]]
             fr = prog.frame(t[1])
         decorated = None
-        if fr is not None and t[0] == "func" and info.node.decorator_list:
-            decorated = prog.module_frame(info.module).env.get(info.node.name) if every else None
-            if decorated is None:
-                fr = None
+        if fr is not None and t[0] == "func" and info.node.decorator_list and not every:
+            fr = None
+        # ('func', q) always denotes the RAW function: a reference to a decorated name is built by the front end as
+        # decorator(...)(('func', q)), so no decorator is added here
         if fr is not None and not fr.unsupported and fr.ret is not None:
             q = info.qualname
             tag = f"#fn{depth}"
@@ -615,7 +618,7 @@ def content(prog, t, depth=0, covered=None, every=False):
                     return _subst_params_any(content(prog, _mask_func(decorated, q), depth + 1, covered, every), {("func", "<this function>"): fn})
                 return fn
         return t
-    if is_term(t) and t[0] == "call" and len(t) == 4 and is_term(t[1]) and t[1][0] == "func":
+    if is_term(t) and t[0] == "call" and len(t) == 4 and is_term(t[1]) and t[1][0] == "func" and not every:
         # a function that is CALLED here is not a function value: it stays a call (inlined by expand where possible)
         return ("call", t[1], *(content(prog, x, depth, covered, every) for x in t[2:]))
     return tuple(content(prog, x, depth, covered, every) if isinstance(x, tuple) else x for x in t)
@@ -1090,25 +1093,41 @@ def _judge(ctx, key, where, what, level, vocab, loops_restructured, lhs, rhs):
 
     def measure(ds):
         atoms, cost = [], 0
+        sides = [0, 0]
         for label, a_, r_, pa_, pr_ in ds:
             d = atomic_diffs(a_, r_, label)
             if d is None:
                 d = atomic_diffs(pa_, pr_, label)
             atoms.append(d)
-            cost += min(local_cost(a_, r_), local_cost(pa_, pr_))
+            c = min(local_cost2(a_, r_), local_cost2(pa_, pr_), key=sum)
+            cost += sum(c)
+            sides[0] += c[0]
+            sides[1] += c[1]
+        measure.sides[id(ds)] = tuple(sides)
         return atoms, cost
+
+    measure.sides = {}
 
     (at1, c1), (at2, c2) = measure(d1), measure(d2)
     import os
 
     if os.environ.get("LCMSA_DEBUG_JUDGE"):
         for nm, ds, c in (("L1", d1, c1), ("L2", d2, c2)):
-            print("JUDGE", key, nm, "cost", c, [(lab, first_difference(a, r, lab)[:300]) for lab, a, r, _x, _y in ds])
+            if os.environ.get("LCMSA_DEBUG_JUDGE") == "2":
+                for lab, a, r, _x, _y in ds:
+                    print("FORM-A", nm, lab, a)
+                    print("FORM-R", nm, lab, r)
+            print("JUDGE", key, nm, "cost", c, "sides", measure.sides.get(id(ds)), [(lab, first_difference(a, r, lab)[:300]) for lab, a, r, _x, _y in ds])
     ds, atoms, cost = (d1, at1, c1) if c1 <= c2 else (d2, at2, c2)
     label, a_, r_, _pa, _pr = ds[0]
     first = first_difference(a_, r_, label)
+    if all(d is not None for d in atoms) and all(x.startswith("~") for d in atoms for x in d):
+        uniq = list(dict.fromkeys(x[1:] for d in atoms for x in d))
+        ctx.undecided(key, f"{what}: differs from the reference form only by type conversions ({'; '.join(uniq[:3])}); whether they "
+                      "matter depends on the type of the value: not decided by comparison", where)
+        return
     if all(d is not None for d in atoms):
-        uniq = list(dict.fromkeys(x for d in atoms for x in d))
+        uniq = list(dict.fromkeys(x.lstrip("~") for d in atoms for x in d))
         ctx.ob(key, False, where, f"{what}: same structure as the reference form but {len(uniq)} atomic deviation(s): " + "; ".join(uniq[:4]),
                lhs=_short(a_), rhs=_short(r_))
     elif cost <= LOCAL_EDIT and not loops_restructured:
@@ -1281,6 +1300,10 @@ def atomic_diffs(a, b, path="", out=None):
     if a == b:
         return out
     ta, tb = is_term(a), is_term(b)
+    if ta and tb and "reshape(shape)" in path and (a == ("const", -1) or b == ("const", -1)):
+        # -1 in a reshape stands for "the size that fits": an explicit size in its place cannot be judged here
+        out.append(f"~{path}: an inferred dimension (-1) against an explicit one")
+        return out
     if ta and tb:
         if a[0] in LEAF_TAGS and b[0] in LEAF_TAGS:
             out.append(f"{path}: {_short(a)} instead of {_short(b)}")
@@ -1293,6 +1316,10 @@ def atomic_diffs(a, b, path="", out=None):
         # the reviewed value wrapped in / stripped of a one-argument call: tuple(x) vs x, set(x) vs x
         for x, y, word in ((a, b, "is additionally passed through"), (b, a, "is no longer passed through")):
             if x[0] == "call" and len(x) == 4 and len(x[2]) == 1 and not x[3] and x[2][0] == y and x[1][0] == "glob":
+                if x[1][1] in _CONVERSIONS and not (x[1][1] == "builtins.tuple" and is_term(y) and y[0] == "comp" and y[1] == "gen"):
+                    # whether a plain type conversion matters depends on the type of the value: no verdict from it
+                    out.append(f"~{path}: the value {word} {x[1][1]}(...)")
+                    return out
                 out.append(f"{path}: the value {word} {x[1][1]}(...)")
                 return out
         # `x | y` (normal form: ordered merge) against `x & y` (normal form: commutative and)
@@ -1365,8 +1392,26 @@ def atomic_diffs(a, b, path="", out=None):
                 return out
             return None
         if a[0] == "poly" and b[0] == "poly":
-            out.append(f"{path}: arithmetic differs")
-            return out if len(a[1]) == len(b[1]) else None
+            atoms_a = {x for mono, _c in a[1] for x, _p in mono}
+            atoms_b = {x for mono, _c in b[1] for x, _p in mono}
+            if atoms_a != atoms_b and len(a[1]) == len(b[1]) and all(
+                    ca == cb and len(ma) == len(mb) and all(pa == pb for (_x, pa), (_y, pb) in zip(ma, mb, strict=True))
+                    for (ma, ca), (mb, cb) in zip(a[1], b[1], strict=True)):
+                # the same arithmetic over operands that differ: descend into the operands
+                for (ma, _ca), (mb, _cb) in zip(a[1], b[1], strict=True):
+                    for (xa, _pa), (xb, _pb) in zip(ma, mb, strict=True):
+                        if xa != xb and atomic_diffs(xa, xb, path + "/operand", out) is None:
+                            return None
+                return out
+            if (atoms_a != atoms_b or len(a[1]) != len(b[1])) and not all(_numeric_atom(x) for x in atoms_a | atoms_b):
+                return None  # operands that need not be numbers (containers, strings): `-`/`+` may be set or sequence algebra
+            if atoms_a != atoms_b or len(a[1]) != len(b[1]):
+                # polynomials over numeric operands: the normal form is canonical for ring identities, so different
+                # normal forms are different functions of their operands
+                out.append(f"{path}: arithmetic differs (another polynomial in the operands)")
+                return out
+            out.append(f"{path}: arithmetic differs (same operands, other coefficients / signs / powers)")
+            return out
     if isinstance(a, tuple) and isinstance(b, tuple):
         if len(a) != len(b):
             return None
@@ -1387,6 +1432,25 @@ def atomic_diffs(a, b, path="", out=None):
         return out
     out.append(f"{path}: {a!r} instead of {b!r}")
     return out
+
+
+_CONVERSIONS = {"builtins.bool", "builtins.dict", "builtins.list", "builtins.tuple", "builtins.int", "builtins.float",
+                "builtins.str", "builtins.iter", "copy.copy", "jax.numpy.asarray", "numpy.asarray", "jax.numpy.array"}
+
+
+def _numeric_atom(x):
+    """Could this operand of `+ - * /` be anything but a number / array?  Containers, strings and their builders: yes."""
+    if not is_term(x):
+        return False
+    if x[0] in ("list", "tuple", "set", "dict", "comp", "bar", "cat", "rep", "fstr", "seq"):
+        return False
+    if x[0] == "const":
+        return isinstance(x[1], (int, float, bool)) or x[1] in ("inf", "-inf")
+    if x[0] == "call":
+        name = callee_name(x) or ""
+        return not name.startswith("builtins.") or name in ("builtins.len", "builtins.int", "builtins.float", "builtins.abs",
+                                                             "builtins.sum", "builtins.min", "builtins.max", "builtins.round")
+    return True
 
 
 def _merge_leaves(t):
